@@ -280,6 +280,19 @@ fn run_combined(acc: &mut Acc, df: &DateForm, tf: &TimeForm, sep: &str, z: i64, 
                 acc.hit(PERM);
             }
             acc.transitions += 1;
+            if o % 60 != 0 {
+                // an offset with seconds is printed rounded to the nearest minute: "up to the precision the format
+                // prints" = the same wall clock at the rounded offset
+                let rounded = (o.abs() + 30) / 60 * 60 * o.signum();
+                if FixedOffset::east_opt(rounded).and_then(|r| r.from_local_datetime(&want).single()).is_none() {
+                    continue; // the same wall clock at the rounded offset is not representable
+                }
+                match DateTime::parse_from_str(buf, fmt) {
+                    Ok(p) if p.offset().local_minus_utc() == rounded && p.naive_local() == want => acc.hit(RT),
+                    other => acc.violation(&format!("DateTime::parse_from_str[{}]:offset-with-seconds", fmt), format!("DateTime::parse_from_str({:?}, {:?})", buf, fmt), format!("Ok(wall clock {:?} at offset {})", want, rounded), format!("{:?}", other)),
+                }
+                continue;
+            }
             match DateTime::parse_from_str(buf, fmt) {
                 Ok(p) if p == wdt && p.offset().local_minus_utc() == o && p.naive_local() == want => acc.hit(RT),
                 other => acc.violation(&format!("DateTime::parse_from_str[{}]", fmt), format!("DateTime::parse_from_str({:?}, {:?})", buf, fmt), format!("Ok({:?})", wdt), format!("{:?}", other)),
@@ -302,7 +315,7 @@ fn whole_forms(acc: &mut Acc, z: i64, s: u32, f: u32, offs: &[i32]) {
             other => acc.violation("NaiveDateTime::parse_from_str[%c]", format!("NaiveDateTime::parse_from_str({:?}, \"%c\")", txt), format!("Ok({:?})", want), format!("{:?}", other)),
         }
     }
-    for &o in offs {
+    for &o in offs.iter().filter(|o| *o % 60 == 0) {
         let fo = FixedOffset::east_opt(o).unwrap();
         let Some(dt) = fo.from_local_datetime(&ndt).single() else { continue };
         // %+
@@ -357,7 +370,7 @@ fn main() {
     let dates = b_dates(tier);
     let small = b_dates_small();
     let times = b_times(true);
-    let offs: Vec<i32> = vec![0, 60, -60, 3600, 19800, -34200, 50400, -43200, 86340, -86340];
+    let offs: Vec<i32> = vec![0, 60, -60, 3600, 19800, -34200, 50400, -43200, 86340, -86340, 29, -30, 3599, 10770, -21585];
     let nd = dates.len() as u64;
     let nt = times.len() as u64;
     let ns = small.len() as u64;
